@@ -475,7 +475,9 @@ DEFAULT_KEYS = dict(file=True, dsb=[], seed=0, shuffle=False, crlf=False, commen
 
 def keylog_text(lines, k):
     """apply the decorations of key-delivery spec k to canonical lines -> text"""
-    rnd = random.Random(k.get("seed", 0))
+    # (a string seed: the stream must be unrelated to the one a connection with the same integer seed draws its randoms from - the
+    # unrelated lines would otherwise repeat that connection's client random with another secret)
+    rnd = random.Random("keylog:%d" % k.get("seed", 0))
     ls = list(lines)
     if k.get("explicit") is not None and ls:     # exact order and multiplicity: indexes into the lines (every line at least once)
         ls = [ls[i % len(ls)] for i in k["explicit"]]
